@@ -392,6 +392,10 @@ func (ft *funcTrans) instrMods(in ssa.Instruction, li *loopInfo) {
 	case *ssa.Defer, *ssa.RunDefers:
 		li.modAll = true
 	case *ssa.Send, *ssa.Select:
+		if srt, ok := w.P.Spec.Ghosts["sentSet"]; ok {
+			w.heapSorts["G_ghost.sentSet"] = srt
+			li.modHeaps["G_ghost.sentSet"] = true
+		}
 		for name, srt := range w.P.Spec.Ghosts {
 			if w.P.Spec.Async[name] {
 				w.heapSorts["G_ghost."+name] = srt
